@@ -1,19 +1,71 @@
 import CelmaVerif.Lemmas.GroupsStepValue
 /-
   Command lines without the two spellings on which a group and a single handler differ for reasons
-  outside the key tables: the inversion word `!` and a comma inside a long key (`--a,bcd`).  The
-  cursor over such a command line only produces elements that satisfy `ElemPlain`.
+  outside the key tables: the inversion word `!` and a comma inside a typed long key (`--a,bcd`).
+  The cursor over such a command line only produces elements that satisfy `ElemPlain`.
+
+  Commas are excluded only where the cursor can take them into a long KEY: in a word that starts
+  with a dash, between a later dash and the next `=` (or the end of the word).  Value words
+  (`1,2,3`, `1,-2`), values attached to a key (`--list=1,2,3`, `-m1,2,3`) may contain commas.
 -/
 namespace CelmaVerif.ProgArgs
 open CelmaVerif CelmaVerif.Keys
 
-/-- no word is `!`, no word contains a comma -/
-def ArgvPlain (argv : List Word) : Prop := ∀ w ∈ argv, w ≠ ['!'] ∧ ',' ∉ w
+/-- the part of a string a long key is taken from: up to the first `=` (`determineNextArg`) -/
+def keyPart (s : Word) : Word :=
+  match findEq s with
+  | none => s
+  | some e => s.take e
+
+/-- after no dash of `s` does a comma occur before the next `=` / the end of `s` -/
+def dashKeysPlain : Word → Bool
+  | [] => true
+  | c :: rest => (c != '-' || !(keyPart rest).contains ',') && dashKeysPlain rest
+
+/-- the word is not `!`, and if it starts with a dash no long key that could be read from it (the
+    text from behind a later dash up to the next `=`) contains a comma.  Words that do not start
+    with a dash are not restricted: `1,2,3`, `a,-b`. -/
+def wordPlain (w : Word) : Bool :=
+  w != ['!'] && (match w with
+    | '-' :: rest => dashKeysPlain rest
+    | _ => true)
+
+/-- no word is `!`; no comma inside a typed long key (`wordPlain`).  Commas in value words and in
+    values attached to a key are allowed. -/
+def ArgvPlain (argv : List Word) : Prop := ∀ w ∈ argv, wordPlain w = true
+
+instance (argv : List Word) : Decidable (ArgvPlain argv) := by unfold ArgvPlain; infer_instance
+
+/-- a cursor position inside a word (`charPos ≠ 0`) is inside a word that starts with a dash -/
+def It.Dash (it : It) : Prop := it.charPos ≠ 0 → ∀ w, it.argv[it.argIndex]? = some w → w.head? = some '-'
 
 structure It.Plain (it : It) : Prop where
   argv : ArgvPlain it.argv
   str : ',' ∉ it.cur.str
   ctrl : it.cur.ty = .control → (it.cur.ch == '(' || it.cur.ch == ')') = true
+  dash : it.Dash
+
+theorem dashKeysPlain_at : ∀ (s : Word), dashKeysPlain s = true → ∀ j, s[j]? = some '-' →
+    ',' ∉ keyPart (s.drop (j + 1)) := by
+  intro s
+  induction s with
+  | nil => intro _ j hj; simp at hj
+  | cons c rest ih =>
+    intro h j hj
+    simp only [dashKeysPlain, Bool.and_eq_true, Bool.or_eq_true, bne_iff_ne, ne_eq, Bool.not_eq_true'] at h
+    cases j with
+    | zero =>
+      simp only [List.getElem?_cons_zero, Option.some.injEq] at hj
+      rcases h.1 with h1 | h1
+      · exact absurd hj h1
+      · intro hm
+        rw [List.drop_succ_cons, List.drop_zero] at hm
+        have := List.contains_iff_mem.mpr hm
+        rw [h1] at this; cases this
+    | succ j =>
+      simp only [List.getElem?_cons_succ] at hj
+      rw [List.drop_succ_cons]
+      exact ih h.2 j hj
 
 theorem parseSingle_single (s : List Char) (k : Key) (h : parseSingle true s = .ok k) : k.Single := by
   unfold parseSingle at h
@@ -52,18 +104,58 @@ theorem getWord_mem {argv : List Word} {i : Nat} {w : Word} (h : getWord argv i 
   | none => rw [hg] at h; cases h
   | some x => rw [hg] at h; cases h; exact List.mem_of_getElem? hg
 
-theorem getSuffix_nocomma {argv : List Word} (ha : ArgvPlain argv) {i j : Nat} {s : Word}
-    (h : getSuffix argv i j = .ok s) : ',' ∉ s := by
-  unfold getSuffix at h
-  rw [bind_eq_ok_g] at h
-  obtain ⟨w, hw, h⟩ := h
+theorem getWord_get {argv : List Word} {i : Nat} {w : Word} (h : getWord argv i = .ok w) : argv[i]? = some w := by
+  unfold getWord at h
+  cases hg : argv[i]? with
+  | none => rw [hg] at h; cases h
+  | some x => rw [hg] at h; cases h; rfl
+
+/-- `mpArgV[i][j] == '-'` really is a dash of the word (not the terminating NUL) -/
+theorem getChar_isDash {argv : List Word} {i j : Nat} {w : Word} (hw : argv[i]? = some w)
+    (h : getChar argv i j = .ok '-') : w[j]? = some '-' := by
+  unfold getChar getWord at h
+  rw [hw] at h
+  simp only [Res.bind_ok] at h
   split at h
-  · cases h
-    exact fun hm => (ha w (getWord_mem hw)).2 (List.mem_of_mem_drop hm)
+  · rename_i hlt
+    simp only [Res.pure_eq, Res.ok.injEq] at h
+    rw [List.getD_eq_getElem?_getD, List.getElem?_eq_getElem hlt] at h
+    rw [List.getElem?_eq_getElem hlt]
+    simpa using h
+  · split at h
+    · simp only [Res.pure_eq, Res.ok.injEq] at h; exact absurd h (by decide)
+    · cases h
+
+/-- the long key read behind a dash at position `j ≥ 1` of a word of a plain command line has no comma -/
+theorem keyPart_nocomma {argv : List Word} (ha : ArgvPlain argv) {i j : Nat} {w : Word}
+    (hw : argv[i]? = some w) (hd : w.head? = some '-') (hj : 1 ≤ j) (hc : w[j]? = some '-') :
+    ',' ∉ keyPart (w.drop (j + 1)) := by
+  have hp := ha w (List.mem_of_getElem? hw)
+  cases w with
+  | nil => cases hd
+  | cons c rest =>
+    simp only [List.head?_cons, Option.some.injEq] at hd
+    subst hd
+    simp only [wordPlain, Bool.and_eq_true] at hp
+    obtain ⟨j', rfl⟩ : ∃ j', j = j' + 1 := ⟨j - 1, by omega⟩
+    simp only [List.getElem?_cons_succ] at hc
+    rw [List.drop_succ_cons]
+    exact dashKeysPlain_at rest hp.2 j' hc
+
+theorem getSuffix_eq {argv : List Word} {i j : Nat} {w s : Word} (hw : argv[i]? = some w)
+    (h : getSuffix argv i j = .ok s) : s = w.drop j := by
+  unfold getSuffix getWord at h
+  rw [hw] at h
+  simp only [Res.bind_ok] at h
+  split at h
+  · cases h; rfl
   · cases h
 
-theorem plain_of_cur {it : It} (ha : ArgvPlain it.argv) (hs : ',' ∉ it.cur.str) (hc : it.cur.ty ≠ .control) : it.Plain :=
-  ⟨ha, hs, fun h => absurd h hc⟩
+theorem plain_of_cur {it : It} (ha : ArgvPlain it.argv) (hs : ',' ∉ it.cur.str) (hc : it.cur.ty ≠ .control)
+    (hd : it.Dash) : it.Plain :=
+  ⟨ha, hs, fun h => absurd h hc, hd⟩
+
+theorem dash_zero {it : It} (h : it.charPos = 0) : it.Dash := fun hne => absurd h hne
 
 theorem clearRem_ok {r : Res It} {it' : It} (h : clearRem r = .ok it') :
     ∃ it'', r = .ok it'' ∧ it' = { it'' with remAsValue := false } := by
@@ -79,40 +171,46 @@ theorem mkEnd_plain {argv : List Word} (ha : ArgvPlain argv) {e : It} (h : It.mk
   · rw [bind_eq_ok_g] at h
     obtain ⟨w, _, h⟩ := h
     cases h
-    exact ⟨ha, by simp, by intro hh; cases hh⟩
+    refine ⟨ha, by simp, (by intro hh; cases hh), ?_⟩
+    intro _ w hw
+    have : argv[argv.length + 1]? = none := List.getElem?_eq_none (by omega)
+    rw [this] at hw; cases hw
 
 /-- every cursor step over a plain command line yields a plain element, whatever the flags -/
 theorem next_plain (fuel : Nat) :
-    (∀ (it it' : It), ArgvPlain it.argv → it.next fuel = .ok it' → it'.Plain) ∧
-    (∀ (it it' : It), ArgvPlain it.argv → it.determineNextArg fuel = .ok it' → it'.Plain) := by
+    (∀ (it it' : It), ArgvPlain it.argv → it.Dash → it.next fuel = .ok it' → it'.Plain) ∧
+    (∀ (it it' : It), ArgvPlain it.argv → it.Dash → 1 ≤ it.charPos → it.determineNextArg fuel = .ok it' →
+      it'.Plain) := by
   induction fuel with
   | zero =>
     constructor
-    · intro it it' _ h; unfold It.next at h; cases h
-    · intro it it' _ h; unfold It.determineNextArg at h; cases h
+    · intro it it' _ _ h; unfold It.next at h; cases h
+    · intro it it' _ _ _ h; unfold It.determineNextArg at h; cases h
   | succ fuel ih =>
     constructor
-    · intro it it' ha h
+    · intro it it' ha hd h
       unfold It.next at h
       dsimp only at h
       obtain ⟨x, hx, rfl⟩ := clearRem_ok h
-      suffices hx' : x.Plain from ⟨hx'.argv, hx'.str, hx'.ctrl⟩
+      suffices hx' : x.Plain from ⟨hx'.argv, hx'.str, hx'.ctrl, hx'.dash⟩
       split at hx
       · exact mkEnd_plain ha hx
       · split at hx
         · rw [bind_eq_ok_g] at hx
           obtain ⟨v, _, hx⟩ := hx
           cases hx
-          exact plain_of_cur ha (by simp [Elem.setValue]) (by simp [Elem.setValue])
+          exact plain_of_cur ha (by simp [Elem.setValue]) (by simp [Elem.setValue]) (dash_zero rfl)
         · rw [bind_eq_ok_g] at hx
           obtain ⟨w, hw, hx⟩ := hx
           split at hx
-          · rw [bind_eq_ok_g] at hx
+          · rename_i hcp0
+            have hcp : it.charPos = 0 := by simpa using hcp0
+            rw [bind_eq_ok_g] at hx
             obtain ⟨c0, hc0, hx⟩ := hx
             split at hx
             · rename_i hctrl
               cases hx
-              refine ⟨ha, by simp [Elem.setControl], fun _ => ?_⟩
+              refine ⟨ha, by simp [Elem.setControl], fun _ => ?_, dash_zero hcp⟩
               simp only [Bool.and_eq_true, beq_iff_eq] at hctrl
               obtain ⟨hlen, hcc⟩ := hctrl
               -- the word is the single character c0
@@ -125,7 +223,10 @@ theorem next_plain (fuel : Nat) :
                   simp at hc0
                   cases hc0
                   rfl
-              have hne : w ≠ ['!'] := (ha w (getWord_mem hw)).1
+              have hne : w ≠ ['!'] := by
+                have := ha w (getWord_mem hw)
+                simp only [wordPlain, Bool.and_eq_true, bne_iff_ne, ne_eq] at this
+                exact this.1
               show (c0 == '(' || c0 == ')') = true
               unfold isCtrlChar at hcc
               by_cases hb : c0 = '!'
@@ -137,51 +238,110 @@ theorem next_plain (fuel : Nat) :
                 · exact absurd h1 hb
             · split at hx
               · cases hx
-                exact plain_of_cur ha (by simp [Elem.setValue]) (by simp [Elem.setValue])
-              · split at hx
+                exact plain_of_cur ha (by simp [Elem.setValue]) (by simp [Elem.setValue]) (dash_zero hcp)
+              · rename_i hval
+                split at hx
                 · cases hx
-                · refine ih.2 _ x ?_ hx; exact ha
-          · refine ih.2 _ x ?_ hx; exact ha
-    · intro it it' ha h
+                · refine ih.2 _ x ?_ ?_ ?_ hx
+                  · exact ha
+                  rotate_left
+                  · exact Nat.le_refl 1
+                  -- the word starts with a dash
+                  intro _ w' hw'
+                  have hww : it.argv[it.argIndex]? = some w := getWord_get hw
+                  rw [hww] at hw'; cases hw'
+                  have hc0' : c0 = '-' := by
+                    simp only [Bool.or_eq_true, bne_iff_ne, ne_eq, not_or, Bool.not_eq_true] at hval
+                    exact Classical.not_not.mp hval.1
+                  subst hc0'
+                  have := getChar_isDash hww hc0
+                  cases w with
+                  | nil => simp at this
+                  | cons c _ => simpa using this
+          · rename_i hcp0
+            have : it.charPos ≠ 0 := by simpa using hcp0
+            refine ih.2 _ x ?_ ?_ ?_ hx
+            · exact ha
+            · exact hd
+            · show 1 ≤ it.charPos
+              omega
+    · intro it it' ha hd hpos h
       unfold It.determineNextArg at h
       rw [bind_eq_ok_g] at h
-      obtain ⟨c, _, h⟩ := h
+      obtain ⟨c, hc, h⟩ := h
       split at h
-      · split at h
-        · refine ih.1 _ it' ?_ h; exact ha
+      · rename_i hcd
+        have hcd' : c = '-' := by simpa using hcd
+        subst hcd'
+        split at h
+        · refine ih.1 _ it' ?_ ?_ h
+          · exact ha
+          · exact dash_zero rfl
         · rw [bind_eq_ok_g] at h
           obtain ⟨name, hname, h⟩ := h
-          have hn := getSuffix_nocomma ha hname
+          -- the word under the cursor
+          have hex : ∃ w, it.argv[it.argIndex]? = some w := by
+            unfold getSuffix at hname
+            rw [bind_eq_ok_g] at hname
+            obtain ⟨w, hw, _⟩ := hname
+            exact ⟨w, getWord_get hw⟩
+          obtain ⟨w, hw⟩ := hex
+          have hhead := hd (by omega) w hw
+          have hn : ',' ∉ keyPart name := by
+            rw [getSuffix_eq hw hname]
+            exact keyPart_nocomma ha hw hhead hpos (getChar_isDash hw hc)
+          unfold keyPart at hn
           split at h
-          · cases h
+          · rename_i hfe
+            rw [hfe] at hn
+            cases h
             exact plain_of_cur ha (by simpa [Elem.setArgString] using hn) (by simp [Elem.setArgString])
-          · cases h
-            exact plain_of_cur ha (by
-              simp only [Elem.setArgString]
-              exact fun hm => hn (List.mem_of_mem_take hm)) (by simp [Elem.setArgString])
+              (dash_zero rfl)
+          · rename_i e hfe
+            rw [hfe] at hn
+            cases h
+            refine plain_of_cur ha (by simpa [Elem.setArgString] using hn) (by simp [Elem.setArgString]) ?_
+            intro _ w' hw'
+            exact hd (by omega) w' hw'
       · split at h
         · cases h
-          exact plain_of_cur ha (by simp [Elem.setArgChar]) (by simp [Elem.setArgChar])
+          exact plain_of_cur ha (by simp [Elem.setArgChar]) (by simp [Elem.setArgChar]) (dash_zero rfl)
         · cases h
-          exact plain_of_cur ha (by simp [Elem.setArgChar]) (by simp [Elem.setArgChar])
+          refine plain_of_cur ha (by simp [Elem.setArgChar]) (by simp [Elem.setArgChar]) ?_
+          intro _ w' hw'
+          exact hd (by omega) w' hw'
 
-theorem step_plain {it it' : It} (ha : ArgvPlain it.argv) (h : it.step = .ok it') : it'.Plain :=
-  (next_plain 4).1 it it' ha h
+theorem step_plain {it it' : It} (hp : it.Plain) (h : it.step = .ok it') : it'.Plain :=
+  (next_plain 4).1 it it' hp.argv hp.dash h
 
 theorem begin_plain {argv : List Word} (ha : ArgvPlain argv) {ai : It} (h : It.begin argv = .ok ai) : ai.Plain := by
   unfold It.begin at h
   split at h
   · exact mkEnd_plain ha h
   · rw [bind_eq_ok_g] at h
-    obtain ⟨w, _, h⟩ := h
+    obtain ⟨w, hw, h⟩ := h
     rw [bind_eq_ok_g] at h
-    obtain ⟨c0, _, h⟩ := h
+    obtain ⟨c0, hc0, h⟩ := h
     split at h
-    · split at h
+    · rename_i hcd
+      have hcd' : c0 = '-' := by simpa using hcd
+      subst hcd'
+      split at h
       · cases h
-      · exact (next_plain 4).2 _ ai ha h
+      · refine (next_plain 4).2 _ ai ?_ ?_ ?_ h
+        · exact ha
+        rotate_left
+        · exact Nat.le_refl 1
+        intro _ w' hw'
+        have hww : argv[1]? = some w := getWord_get hw
+        have hw'' : argv[1]? = some w' := hw'
+        rw [hww] at hw''; cases hw''
+        have := getChar_isDash hww hc0
+        cases w with
+        | nil => simp at this
+        | cons c _ => simpa using this
     · cases h
-      exact plain_of_cur ha (by simp [Elem.setValue]) (by simp [Elem.setValue])
+      exact plain_of_cur ha (by simp [Elem.setValue]) (by simp [Elem.setValue]) (dash_zero rfl)
 
 /-- the cursor a handler hands back is plain again -/
 theorem valueFor_plain {d : ArgDef} {ai : It} (hp : ai.Plain) {x : Word × It} (h : valueFor d ai = .ok x) : x.2.Plain := by
@@ -192,8 +352,8 @@ theorem valueFor_plain {d : ArgDef} {ai : It} (hp : ai.Plain) {x : Word × It} (
     obtain ⟨ait2, hs, h⟩ := h
     have h2 : ait2.Plain := by
       split at hs
-      · exact step_plain (it := { ai with remAsValue := true }) hp.argv hs
-      · exact step_plain hp.argv hs
+      · exact step_plain (it := { ai with remAsValue := true }) ⟨hp.argv, hp.str, hp.ctrl, hp.dash⟩ hs
+      · exact step_plain hp hs
     split at h
     · split at h
       · cases h; exact hp
